@@ -75,6 +75,7 @@ func analyse(goarch string, overlay map[string][]byte) (*core.Collector, error) 
 	rules.LockPair(w, ls, c)
 	rules.Guard(w, ls, c)
 	rules.Atomic(w, ls, c)
+	rules.Degree(w, ls, c)
 	rules.RoEffect(w, ls, c)
 	rules.RunAll(w, c)
 	// a rule family that lost its instances must fail, not pass vacuously
